@@ -32,6 +32,10 @@ FINDINGS = {
     "C16-delete-after-recreate-resurrects": "delete, set, delete on a key that is in the file: the set drops the queued delete marker and "
                                             "the second delete sees an object without a file pointer and queues nothing, so the "
                                             "acknowledged delete never reaches the file and the old record is back after re-opening",
+    "C16-double-cease-unblocks-drain": "a delete (or shift) that empties the swamp calls CeaseVigil before Destroy and the handler's deferred "
+                                       "CeaseVigil runs again; when Destroy returns at once because another request is already destroying, "
+                                       "the counter has lost a vigil that belongs to a third request: the drain passes while that request "
+                                       "is in flight, the file is deleted, its acknowledged write is gone",
     "C16-stop-returns-before-swamps-closed": "GracefulStop returns while swamps are still mapped (their close has not flushed yet): the "
                                              "process exits and acknowledged writes that were only in memory are gone",
     "C16-summon-replaces-closing-instance": "SummonSwamp does not go back to the swamp map after WaitForGracefulClose: it creates and maps a "
@@ -55,7 +59,7 @@ def spec_violated(rep):
             live[f[1]] = f[2]
         if f[0] == "del" and line == "DELETED":
             live.pop(f[1], None)
-        if f[0] in ("spawn", "spawnw"):
+        if f[0] in ("spawn", "spawnw", "spawnv"):
             pend[f[1]] = f[2:]
         m = re.match(r"(\w) done (\w+)", line)
         if m and m.group(1) in pend:
@@ -86,7 +90,7 @@ def run(ctx):
     corrs = []
     if K.build_hx(ctx) and K.build_drv(ctx):
         args = ["%s=%s" % (k, facts.get(k, "unknown")) for k in
-                ("destroyRechecksAfterDrain", "listenerReadsTouchUnderLock", "summonTakesVigil", "recreateDropsDeleteMarker", "summonWaitsForUnmap", "stopWaitsUntilClosed")]
+                ("destroyRechecksAfterDrain", "listenerReadsTouchUnderLock", "summonTakesVigil", "recreateDropsDeleteMarker", "summonWaitsForUnmap", "stopWaitsUntilClosed", "ceasesVigilOnce")]
         c = K.correspondence(ctx, "C16", args, timeout=900)
         corrs.append(("C16", args, c))
     else:
